@@ -20,6 +20,7 @@ ASSUMPTIONS = [
 
 def plan(tier, seed):
     cases = espace.plan_shards(tier, parsers=False)
+    cases += espace.plan_shards(tier, parsers=False, bases=["frame_categorical"], quick_pairs=())
     return {"cases": cases, "exhaustive": True,
             "bounds": dict(espace.BOUNDS_TEXT, tier=tier),
             "rule": "each case = one shard of the edit space; state = one distinct (schema, table) pair (canonical JSON); "
